@@ -390,6 +390,10 @@ def g_api(rng, tier, props):
     return GM.api_schedules(rng, props, n_of(tier, 1500, 20000))
 
 
+def g_multi(rng, tier, props):
+    return GM.multi_schedules(rng, props, n_of(tier, 40, 600), tier != "quick")
+
+
 def g_random_mem(rng, tier, props):
     """C09: duplicates of slices after consumption with older ids missing, tight budgets, stale unreliable fragments, long runs."""
     out = []
@@ -447,6 +451,13 @@ PLANS = {
                 mc=[mc_job("conn_mem", "MC_Conn", {"quick": ["MC_C09_q1.cfg", "MC_C09_q2.cfg", "MC_C09_q3.cfg"],
                                                     "thorough": ["MC_C09_q1.cfg", "MC_C09_q2.cfg", "MC_C09_q3.cfg", "MC_C09_t1.cfg"]}, ["C09"])],
                 level="model_checking", assumptions=MSG_ASSUME),
+    "C11": Plan("msg", "TraceRenetMon", ["C11", "C01", "C02", "C03"], [("multi", g_multi)],
+                mc=[mc_job("server_bcast", "MC_Server", {"quick": ["MC_C11_q1.cfg"], "thorough": ["MC_C11_q1.cfg"]}, ["C11", "C01", "C02", "C03"],
+                           strict=False, cap_q=600, cap_t=10000)],
+                level="model_checking", assumptions=MSG_ASSUME,
+                rule="two or three clients on one RenetServer with independent fault schedules, unicast and broadcast(_except) on every channel "
+                     "kind, one client hostile / stalled / disconnected / with a stalled reliable channel; distinct = different step lists, "
+                     "non-trivial = at least one delivery and one fault"),
     "C12": Plan("msg", "TraceRenetMon", ["C12"], [("api", g_api)],
                 mc=[mc_job("server_api", "MC_Server", {"quick": ["MC_C12_q1.cfg"], "thorough": ["MC_C12_q1.cfg"]}, ["C12"], strict=False,
                            cap_q=4000, cap_t=60000)],
